@@ -135,7 +135,7 @@ Fixpoint sort_keys (l : list key) : list key :=
 
 (* summary_table.lookup_one_record of the values: RecordSet.get_one() of the rows whose group-by values equal the
    key, i.e. the row listed first.  Rows are listed in ascending row id order (the harness presents them so,
-   new rows get larger ids: pass_sorted), so this is the matching row with the LOWEST id
+   new rows get larger ids: Summary_proofs.pass_asc), so this is the matching row with the LOWEST id
    (Summary_proofs.first_match_lowest). *)
 Fixpoint first_match (summ : list mrow) (k : key) : option Z :=
   match summ with
@@ -270,7 +270,7 @@ Fixpoint entry (prev : list (Z * list Z)) (rid : Z) : list Z :=
 
 (* The helper cells are evaluated in ascending row id order (Engine._recompute_step); every one is
    re-evaluated here (the engine re-evaluates the dirty ones; for a record whose cells did not change the
-   evaluation finds the rows it found before: Summary_proofs.pass_fixpoint). *)
+   evaluation finds the rows it found before: Summary_proofs.helper_list_valid, pass_d_full). *)
 Fixpoint pass (kinds : list kind) (prev : list (Z * list Z)) (src : list srow) (summ : list mrow)
   : list mrow * list (Z * list Z) :=
   match src with
